@@ -7,8 +7,35 @@ propext / Classical.choice / Quot.sound is used (no sorryAx, no native_decide ax
 import Lean
 open Lean
 
-abbrev EnvM := StateT Environment IO
-instance : MonadEnv EnvM := { getEnv := get, modifyEnv := fun f => modify f }
+/-- Axioms reachable from a constant, memoised across all theorems of the module (one traversal
+    of the dependency closure instead of one per theorem). A constant on the current DFS path
+    contributes nothing the second time (inductive ↔ constructor cycles). -/
+partial def axiomsOf (env : Environment) (c : Name) : StateM (NameMap NameSet) NameSet := do
+  if let some r := (← get).find? c then return r
+  modify fun m => m.insert c {}
+  let visit (e : Expr) (acc : NameSet) : StateM (NameMap NameSet) NameSet := do
+    let mut acc := acc
+    for d in e.getUsedConstants do
+      let r ← axiomsOf env d
+      acc := r.foldl (init := acc) fun a x => a.insert x
+    return acc
+  let mut res : NameSet := {}
+  match env.find? c with
+  | some (.axiomInfo v)  => res := res.insert c; res ← visit v.type res
+  | some (.defnInfo v)   => res ← visit v.type res; res ← visit v.value res
+  | some (.thmInfo v)    => res ← visit v.type res; res ← visit v.value res
+  | some (.opaqueInfo v) => res ← visit v.type res; res ← visit v.value res
+  | some (.quotInfo _)   => pure ()
+  | some (.ctorInfo v)   => res ← visit v.type res
+  | some (.recInfo v)    => res ← visit v.type res
+  | some (.inductInfo v) =>
+      res ← visit v.type res
+      for ctor in v.ctors do
+        let r ← axiomsOf env ctor
+        res := r.foldl (init := res) fun a x => a.insert x
+  | none => pure ()
+  modify fun m => m.insert c res
+  return res
 
 def main (args : List String) : IO UInt32 := do
   let some modStr := args.head? | do IO.eprintln "usage: Audit <module>"; return 2
@@ -17,6 +44,7 @@ def main (args : List String) : IO UInt32 := do
   let env ← importModules #[{ module := modName }] {} (trustLevel := 1024)
   let some modIdx := env.getModuleIdx? modName | do IO.eprintln "module not found"; return 2
   let mut n := 0
+  let mut memo : NameMap NameSet := {}
   for (name, ci) in env.constants.map₁.toList do
     if env.getModuleIdxFor? name != some modIdx then continue
     match ci with
@@ -26,8 +54,9 @@ def main (args : List String) : IO UInt32 := do
       let last := match name with | .str _ s => s | _ => ""
       if last.startsWith "eq_" || last == "congr_simp" || last.startsWith "_" || last == "injEq"
          || last == "sizeOf_spec" || last == "inj" || last == "noConfusion" then continue
-      let (axsArr, _) ← (collectAxioms name : EnvM (Array Name)).run env
-      let axs := axsArr.toList.map (·.toString)
+      let (axSet, memo') := (axiomsOf env name).run memo
+      memo := memo'
+      let axs := axSet.toList.map (·.toString)
       IO.println s!"THM {name} {" ".intercalate axs}"
       n := n + 1
     | _ => pure ()
